@@ -4,7 +4,10 @@
 // Bounded-exhaustive program enumeration (see gen.go, NOTES.md): every program of the bounded
 // grammar family is generated exactly once, in two white-space layouts, with EVERY single
 // insertion of a comment (6 placements) at every token boundary, and with every single-token
-// deletion / duplication / adjacent swap of its real token stream. Nothing is sampled.
+// deletion / duplication / adjacent swap of its real token stream, and (bytes.go) with every
+// byte-level variant of a bounded sub-family: every prefix, every suffix, every single-byte
+// deletion / duplication and every insertion of a small byte alphabet at every offset.
+// Nothing is sampled.
 package main
 
 import (
@@ -72,8 +75,9 @@ type job struct {
 	comments int // 0 none, 1 junction boundaries only, 2 every boundary
 	mutants  bool
 	layouts  []int
-	cLayouts []int // layouts in which comments are inserted
-	pct      bool  // also insert the comment text with a per cent sign (pretty layout)
+	cLayouts []int    // layouts in which comments are inserted
+	pct      bool     // also insert the comment text with a per cent sign (pretty layout)
+	bytes    *byteJob // non-nil: a job of the byte-level variant family (bytes.go)
 }
 
 type counters struct {
@@ -324,6 +328,7 @@ func main() {
 	maxToks := flag.Int("maxtoks", 0, "debug: only programs of at most this many tokens")
 	flag.BoolVar(&dryRun, "dry", false, "enumerate and count only (no evaluation)")
 	prof := flag.String("cpuprofile", "", "write a CPU profile")
+	onlyFam := flag.String("fam", "", "debug: only the jobs of this family (values|edge|bytes|inner|seq)")
 	cfg = vlib.ParseFlags("C20", "exploration")
 	if *prof != "" {
 		f, _ := os.Create(*prof)
@@ -352,6 +357,14 @@ func main() {
 	for _, s := range edgeStmts() {
 		jobs = append(jobs, job{fam: "edge", prog: program{Family: "edge", Stmts: []stmt{s}}, comments: 2, mutants: true, layouts: both, cLayouts: both})
 	}
+	// byte-level variants (bytes.go): cheap (most variants are rejected after a few tokens) and queued
+	// before the large families, so the soft time box can never cut them
+	byteJobs := bytePrograms(inner, cfg.Thorough())
+	assignByteOwners(byteJobs)
+	for i := range byteJobs {
+		jobs = append(jobs, job{fam: "bytes", bytes: &byteJobs[i]})
+	}
+	nFirst := len(jobs)
 	for _, s := range inner {
 		j := job{fam: "inner", prog: program{Family: "inner", Stmts: []stmt{s}}, comments: 2, mutants: true, layouts: both, cLayouts: both}
 		j.pct = maxUnit(s) <= 1
@@ -401,6 +414,16 @@ func main() {
 		jobs = keep
 		rep.NotExhaustive("debug filter -maxtoks")
 	}
+	if *onlyFam != "" {
+		var keep []job
+		for _, j := range jobs {
+			if j.fam == *onlyFam {
+				keep = append(keep, j)
+			}
+		}
+		jobs = keep
+		rep.NotExhaustive("debug filter -fam " + *onlyFam)
+	}
 	if cfg.Seed != 0 {
 		// the seed only permutes the enumeration order
 		rot := int(uint64(cfg.Seed) % uint64(len(jobs)))
@@ -436,7 +459,11 @@ func main() {
 					expired.Store(true)
 					return
 				}
-				evalProgram(w, jobs[i])
+				if jobs[i].bytes != nil {
+					evalBytes(w, jobs[i].bytes)
+				} else {
+					evalProgram(w, jobs[i])
+				}
 			}
 		}(w)
 	}
@@ -447,11 +474,15 @@ func main() {
 		if n > int64(len(jobs)) {
 			n = int64(len(jobs))
 		}
-		rep.NotExhaustive(fmt.Sprintf("soft time box reached after %d of %d programs (inner family is enumerated first and was %s)", n, len(jobs),
-			map[bool]string{true: "complete", false: "incomplete"}[n > int64(len(inner)+len(valueStmts())+len(edgeStmts()))]))
+		rep.NotExhaustive(fmt.Sprintf("soft time box reached after %d of %d programs (values, edge and byte-level families are enumerated first and were %s; the inner family comes next and was %s)", n, len(jobs),
+			map[bool]string{true: "complete", false: "incomplete"}[n > int64(nFirst)],
+			map[bool]string{true: "complete", false: "incomplete"}[n > int64(nFirst+len(inner))]))
 	}
+	reportByteCounters(byteJobs)
 	finish(len(inner), len(alpha), seqLen, *dump, expired.Load())
 }
+
+func nowNano() int64 { return time.Now().UnixNano() }
 
 func heapBytes() uint64 {
 	sm := []metrics.Sample{{Name: "/memory/classes/heap/objects:bytes"}}
@@ -565,9 +596,10 @@ func finish(nInner, nAlpha, seqLen int, dump, partial bool) {
 	rep.Count("mutants_identity_skipped", int(cnt.mutIdentity))
 	rep.Scenario("family_inner", fmt.Sprintf("%d single statements: every inner shape of every statement kind", nInner))
 	rep.Scenario("family_seq", fmt.Sprintf("all sequences of 1..%d statements over %d representative statements", seqLen, nAlpha))
-	rep.SetRule("evaluation = one source text (program x layout, + one comment insertion, or + one token mutation) pushed through the real scanner/parser/formatter; " +
+	rep.SetRule("evaluation = one source text (program x layout, + one comment insertion, or + one token mutation, or one byte-level variant: prefix / suffix / byte deletion / byte duplication / byte insertion, each distinct text once) pushed through the real scanner/parser/formatter; " +
 		"distinct_nontrivial = distinct source texts that are either accepted by the real parser and went through format/parse/format (valid programs and comment variants) " +
-		"or rejected mutants that exercised the error paths; comment variants the parser rejects are counted separately and are not non-trivial")
+		"or rejected mutants / byte-level variants that exercised the error paths; comment variants the parser rejects are counted separately and are not non-trivial")
+	rep.Assume("white space inside a comment may differ after formatting (runs of blanks / tabs / line breaks inside a comment compare equal to one blank); a failing accepted byte-level variant is attributed by a differential test (normalise the feature, the failure disappears) to the family that enumerates its cause exhaustively: TAB inside a literal (values family), comment position (comment family), empty literal (outside the domain)")
 	rep.Assume("validity of a comment position is decided by the real parser: a comment variant the parser rejects is not a valid source and only the no-crash demand applies to it")
 	rep.Assume("containers that declare nothing (info(), import(), type(), '()' bodies) may be dropped by the formatter; empty string values are not generated")
 	rep.Assume("an empty source is outside the domain (scanner.MustNewScanner log.Fatal()s on it by design)")
